@@ -765,6 +765,12 @@ func (e *Engine) fnValueContract(v ssa.Value) *FuncContract {
 	if fc := e.fnTypeContract(v.Type()); fc != nil {
 		return fc
 	}
+	if p, ok := v.(*ssa.Parameter); ok && p.Parent() != nil {
+		// "fntype param:<function key>.<parameter>": what a function assumes of a function value it is given
+		if fc := e.cs.Funcs["param:"+p.Parent().String()+"."+p.Name()]; fc != nil && fc.FnType {
+			return fc
+		}
+	}
 	if u, ok := v.(*ssa.UnOp); ok && u.Op == token.MUL {
 		if fa, ok := u.X.(*ssa.FieldAddr); ok {
 			if sty, stt, ok := isPtrToStruct(fa.X.Type()); ok {
